@@ -134,7 +134,7 @@ fn inline(r: &mut Rng, depth: usize, multi: bool) -> String {
         19 => format!("~~{}~~", sub(r)),
         20 => format!("[{}][{}]", sub(r), r.ps(&["r1", "R1", "nope"])),
         21 => r.ps(&["[r1]", "[r1][]", "[nope]"]).to_string(),
-        22 => r.ps(&["www.example.com/a?b=c", "http://x.y/z", "https://a.b", "a@b.co", "ftp://f.g/h"]).to_string(),
+        22 => r.ps(&["www.example.com/a?b=c", "http://x.y/z", "https://a.b", "a@b.co", "ftp://f.g/h", "ann@example.org or bob@example.org today", "a@b.co c@d.eu e", "mu\u{17e} *\u{17e}ena* \u{307e}"]).to_string(),
         23 => format!("[^{}]{}", r.ps(&["a", "b", "nope"]), r.ps(&["", "", "", "[b]", "[]", "[^b]", "[r1]", "(u)", "[nope]"])),
         24 => r.ps(&["\\*", "\\_", "\\\\", "\\[", "&amp;", "&#35;", "&copy;", "&nosuch;"]).to_string(),
         25 => format!("{}{}{}", words(r), brk(r), words(r)),
